@@ -194,8 +194,11 @@ def pytorch_stft_frame_computer(
     if pad_left or pad_right:
         # symmetric padding
         sig = torch.cat(
-            [sig[:pad_left].flip(0), sig, sig[sig_len - pad_right :].flip(0)]
+            [sig[: max(pad_left, 0)].flip(0), sig, sig[sig_len - pad_right :].flip(0)]
         )
+    if pad_left < 0:
+        # kaldi_shift with a shift longer than the frame: frames start past sample 0
+        sig = sig[-pad_left:]
     sig = sig.as_strided((num_frames, frame_length), (frame_shift, 1))
     y: List[torch.Tensor] = []
     if include_energy:
